@@ -146,11 +146,33 @@ Definition stored_curve (key : model_key) (raw : list N) (tc : tconstr N) (Ti : 
   end.
 
 (* ---------------------------------------------------------------- the box handed to the optimiser
-   rows are (lower, upper).  [fix_identical] stands for utilities/base_model.py: fix_identical_bnds
-   (a row with lower = upper is widened by a power of ten; not modelled, see Proofs/RefineProofs.v). *)
+   rows are (lower, upper). *)
 Definition sort_row (r : N * N) : N * N := if snd r <? fst r then (snd r, fst r) else r.
 Definition clip_lower_0 (r : N * N) : N * N := if fst r <? zero then (zero, snd r) else r.
 
+(* common/utils.py: 10 ** OoM_numba(v, method="floor") = 10 ** floor(log10 |v|) for v <> 0, found by a decade search
+   (10^n and 1/10^n are exact / correctly rounded in binary64 for |n| <= 22, which is what pow returns there) *)
+Fixpoint pow10_up (fuel : nat) (a p : N) : N :=
+  match fuel with
+  | O => p
+  | S f => if (n_ten * p) <=? a then pow10_up f a (n_ten * p) else p
+  end.
+Fixpoint pow10_down (fuel : nat) (a q : N) : N :=
+  match fuel with
+  | O => one / q
+  | S f => if (one / q) <=? a then one / q else pow10_down f a (n_ten * q)
+  end.
+Definition pow10floor (v : N) : N :=
+  let a := n_abs v in if one <=? a then pow10_up 330 a one else pow10_down 330 a n_ten.
+(* OoM_numba returns 1.0 for 0.0, hence a width of 10 *)
+Definition oom_width (v : N) : N := if v =? zero then n_ten else pow10floor v.
+
+(* utilities/base_model.py: fix_identical_bnds, one row: identical bounds are widened SYMMETRICALLY by oom_width
+   (so a degenerate [0,0] row becomes [-10,10]: whatever must stay non-negative has to be clamped AFTER this step) *)
+Definition fix_identical_row (r : N * N) : N * N :=
+  if fst r =? snd r then (fst r - oom_width (fst r), snd r + oom_width (fst r)) else r.
+
+(* the update functions, over an arbitrary row fix-up [fix_identical] (instantiated with [fix_identical_row]) *)
 Section Bounds.
 Variable fix_identical : N * N -> N * N.
 
